@@ -17,6 +17,7 @@ package tabula
 //@   loop 0:
 //@     invariant 0 <= i && i <= pageCount && len(pageIndices) == pageCount
 //@     invariant forall k int :: {pageIndices[k]} 0 <= k && k < i ==> pageIndices[k] == k
+//@     decreases pageCount - i
 //@   loop 1:
 //@     invariant forall k int :: {e.options.pages[k]} 0 <= k && k < $i ==> 1 <= e.options.pages[k] && e.options.pages[k] <= pageCount
 //@     invariant forall v int :: {has(seen, v)} has(seen, v) ==> seen[v]
